@@ -32,7 +32,7 @@ NOT_DECIDED = ["equality of coordinates within the format's precision (numerical
                "value ranges against field widths (overflow)", "gro time regex vs the %s spelling of floats"]
 ASSUMPTIONS = ["in_units_of(q, a, b) converts from a to b and is the only unit conversion used at the file boundary",
                "the format specifications fix: xtc/trr/gro/h5/lh5 nm; dcd/netcdf/rst7/ncrst/mdcrd/xyz/lammpstrj(real)/pdb/dtr/arc angstrom"]
-FLOORS = {"C01-R9": 17, "C01-R8": 54, "C01-R1": 50, "C01-R2": 60, "C01-R3": 20, "C01-R4": 9, "C01-R5": 25, "C01-R6": 8, "C01-R7": 6}
+FLOORS = {"C01-R9": 19, "C01-R8": 54, "C01-R1": 50, "C01-R2": 60, "C01-R3": 20, "C01-R4": 9, "C01-R5": 25, "C01-R6": 8, "C01-R7": 6}
 
 TRAJ = "mdtraj/core/trajectory.py"
 WRITABLE = [".h5", ".xtc", ".trr", ".dcd", ".nc", ".netcdf", ".ncdf", ".mdcrd", ".crd", ".xyz", ".xyz.gz", ".lammpstrj", ".gro",
@@ -91,6 +91,7 @@ def check(ctx):
     r9_end_to_end(ctx)
     r9_end_to_end_stores(ctx)
     r9_end_to_end_xdr(ctx)
+    r9_end_to_end_dcd(ctx)
     r2_fields_unconditional(ctx)
     ctx.rule("C01-R9", "save then load end to end (saver, file class, text, file class, loader all evaluated; unit conversion symbolic): the loaded trajectory carries the coordinates, cell and time that were saved, in nm / ps / degrees")
     ctx.rule("C01-R8", "text formats (xyz, mdcrd, lammpstrj, gro): write() and read() of the file class both evaluated - what is read back from the text written is what went in (coordinates, cell, time), laid out as the format tables say")
@@ -1030,3 +1031,32 @@ def r9_end_to_end_xdr(ctx):
                 if v is not None and not (isinstance(v, Ten) and all(x_.const_value() == 0 for x_ in v.data)):
                     why.append("a cell %s is loaded from a file saved without one" % (repr(v)[:40],))
             ctx.decide(not why, "C01-R9", saver, E.TRAJ, q, desc, "", "; ".join(why[:2]))
+
+
+def r9_end_to_end_dcd(ctx):
+    """save_dcd followed by load_dcd on a model DCD file (sa/e2e.save_and_load_dcd): coordinates in nm, cell lengths in nm and angles come back; no cell:
+    none is loaded."""
+    from .. import writers as W, e2e as E, textio as T
+    from ..tensym import Raised, Ten
+    from ..pysym import Unsupported as PUnsupported
+    saver = ctx.py.func(E.TRAJ, "Trajectory.save_dcd")
+    q = "Trajectory.save_dcd / load_dcd"
+    for have_cell in (True, False):
+        desc = "save then load (%s): coordinates in nm%s come back" % ("with a cell" if have_cell else "no cell", ", cell lengths in nm and angles" if have_cell else "")
+        try:
+            world = W.World(2, cell=True, ortho=False, time=True)
+            t = E.save_and_load_dcd(ctx, world, have_cell=have_cell)
+        except Raised as e:
+            ctx.violated("C01-R9", saver, E.TRAJ, q, desc, "refused: %s" % (e.exc or e))
+            continue
+        except PUnsupported as e:
+            ctx.undecided("C01-R9", saver, E.TRAJ, q, desc, "not evaluable: %s" % e)
+            continue
+        why = []
+        for field, want in (("xyz", world.x),) + ((("unitcell_lengths", world.L), ("unitcell_angles", world.A)) if have_cell else ()):
+            v = t.__dict__.get(field) if t is not None else None
+            if not (isinstance(v, Ten) and v.shape == want.shape and all(T.same_value(a_, b_) for a_, b_ in zip(list(v.data), list(want.data)))):
+                why.append("%s comes back as %s" % (field, repr(list(v.data)[:2])[:90] if isinstance(v, Ten) else v))
+        if not have_cell and t is not None and (t.__dict__.get("unitcell_lengths") is not None or t.__dict__.get("unitcell_angles") is not None):
+            why.append("a cell is loaded from a file saved without one")
+        ctx.decide(not why, "C01-R9", saver, E.TRAJ, q, desc, "", "; ".join(why[:2]))
